@@ -246,6 +246,14 @@ def run_one(ctx, exe, run, seed, tier, tag, replay_ops=None):
     """One harness run + model replay + judge.  Returns the run directory."""
     d = os.path.join(ctx.scratch, '%s-%s' % (run['cmd'], tag))
     os.makedirs(d, exist_ok=True)
+    env = ctx.env
+    if run.get('race'):
+        if not getattr(ctx, 'race_exe', None):
+            ctx.race_exe = build_harness(ctx, race=True)
+        if ctx.race_exe:
+            exe = ctx.race_exe
+            env = dict(ctx.env)
+            env['GORACE'] = 'log_path=%s halt_on_error=0 exitcode=0' % os.path.join(d, 'race')
     cmd = [exe, run['cmd'], '-seed', str(seed), '-tier', tier, '-out', d]
     cdir = os.path.join(ctx.root, 'corpus', run.get('corpus', ctx.pid))
     if replay_ops is None and os.path.isdir(cdir):
@@ -260,7 +268,7 @@ def run_one(ctx, exe, run, seed, tier, tag, replay_ops=None):
     os.makedirs(work, exist_ok=True)
     t = time.time()
     try:
-        rc, out = sh(cmd, cwd=work, env=ctx.env, timeout=run.get('timeout', 1500) * (4 if tier == 'thorough' else 1))
+        rc, out = sh(cmd, cwd=work, env=env, timeout=run.get('timeout', 1500) * (4 if tier == 'thorough' else 1))
     except subprocess.TimeoutExpired:
         rc, out = 124, 'harness timed out'
     shutil.rmtree(work, ignore_errors=True)
